@@ -1,7 +1,10 @@
 #!/bin/sh
-# runs every registered quick (or $1) check and prints one line per property
+# runs every registered quick (or $1) check and prints one line per property (plus anything alarming)
 cd "$(dirname "$0")/.."
 tier=${1:-quick}
 for p in C01 C02 C03 C04 C05 C06 C07 C08 C09 C10 C11 C12 C13 C14 C15 C16 C17 C18 C19 C20; do
-  ./check $p --tier $tier 2>&1 | grep -E "^VIOLATION|^KNOWN-FINDING|^  #|tier=" | cut -c1-260
+  out=$(./check $p --tier $tier 2>&1); rc=$?
+  echo "$out" | grep -E "^VIOLATION|^KNOWN-FINDING|^  #|tier=" | cut -c1-260
+  # a check that dies (exception, missing tool) prints no summary line: say so
+  if ! echo "$out" | grep -q "tier=$tier"; then echo "$p BROKEN rc=$rc: $(echo "$out" | tail -2 | tr '\n' ' ' | cut -c1-300)"; fi
 done
